@@ -55,6 +55,8 @@ def opOfJson (j : Json) : Except String Op := do
   | "appSend" => pure (.appSend (← getNat j "i") (← amsgOfJson (← j.getObjVal? "m")))
   | "appExit" => pure (.appExit (← getNat j "i"))
   | "failWrites" => pure .failWrites
+  | "h2NoCredit" => pure .h2NoCredit
+  | "failAfter" => pure (.failAfter (← getNat j "k"))
   | "terminate" => pure .terminate
   | "tick" => pure (.tick (← getNat j "d"))
   | "timerFire" => pure .timerFire
@@ -121,9 +123,9 @@ def allWhos (s : St) : List Who := [Who.reader, Who.timer] ++ (List.range s.n).m
 def Cand.key (c : Cand) : String :=
   let s := c.st
   let insts := (List.range s.n).map (fun i => let x := s.inst i
-    s!"{repr x.kind}{x.hasApp}{x.closed}{repr x.hst}{repr x.wst}{x.accepted}{repr x.q}{repr x.waiting}{x.exiting}{x.exited}{x.respEnded}{x.h2dead}{x.waitingRecv}{x.direct}{repr x.inflight}{x.discPuts}{x.access}")
+    s!"{repr x.kind}{x.hasApp}{x.closed}{repr x.hst}{repr x.wst}{x.accepted}{repr x.q}{repr x.waiting}{x.exiting}{x.exited}{x.respEnded}{x.h2dead}{x.h2buf}{x.waitingRecv}{x.direct}{repr x.inflight}{x.discPuts}{x.access}")
   let conts := (allWhos s).map (fun w => s!"{repr (s.cont w)}")
-  s!"{c.seen.length}|{(c.pendingIdx.map (·.1))}|{s.outs.length}|{insts}|{s.live}|{repr s.our}{repr s.their}{s.keepAlive}{s.wsMode}{s.reqComplete}{s.pclosed}{rpcName s.rpc}{s.eofSeen}{s.closedByServer}{s.failWrites}{s.timer}{s.terminated}{s.now}|{conts}|{s.closers}|{s.ready.map whoName}|{s.closeAt}{s.doneAt}"
+  s!"{c.seen.length}|{(c.pendingIdx.map (·.1))}|{s.outs.length}|{insts}|{s.live}|{repr s.our}{repr s.their}{s.keepAlive}{s.wsMode}{s.reqComplete}{s.pclosed}{rpcName s.rpc}{s.eofSeen}{s.closedByServer}{s.failWrites}{s.wc}{s.failAt}{s.timer}{s.terminated}{s.now}|{conts}|{s.closers}|{s.ready.map whoName}{s.draining.map (fun p => (whoName p.1, p.2))}{s.noCredit}|{s.closeAt}{s.doneAt}"
 
 def dedup (cs : List Cand) : List Cand :=
   (cs.foldl (fun (acc : List String × List Cand) c => let k := c.key; if acc.1.contains k then acc else (k :: acc.1, acc.2 ++ [c])) ([], [])).2
